@@ -4,6 +4,7 @@ import Pyunicorn.Lemmas.LineDistResample
 import Pyunicorn.Lemmas.LineDistRound
 import Pyunicorn.Lemmas.LineDistEntropy
 import Pyunicorn.Lemmas.LineDistRnd64
+import Pyunicorn.Lemmas.LineDistMethods
 /-!
 # C08 — RQA line statistics are exact run-length counts of the matrix
 
@@ -1051,6 +1052,136 @@ example : (xOps rnd64).lt (StructC08.metric_supremum (xOps rnd64) 0 1 1
       (fun a _ => .fin (if a = 0 then 1 else 1 / 2 ^ 54))) (.fin 1) = true := by decide +kernel
 
 end Binary64
+
+/-! ## Round 5 — the public methods as wholes: every storage mode, missing values on and off
+
+`Model/LineDistMethods.lean` models `diagline_dist()`, `vertline_dist()`, `white_vertline_dist()`
+and `recurrence_rate()` of a fixed-threshold / supremum `RecurrencePlot` with their Python layer
+(dispatch on `sparse_rqa` and `missing_values`, the `np.array_equal(recmat, recmat.T)` test and the
+doubling, the NaN-free sub-embedding of the repaired `recurrence_rate`).  The theorems hold for
+every rounding with `rnd 0 = 0` (so for exact arithmetic `id` and for `rnd64`), every embedding of
+finite / infinite / NaN samples, every threshold and size. -/
+section Methods
+open Pyunicorn.Generated
+
+/-- the matrix of a fixed threshold passes `np.array_equal(recmat, recmat.T)`: the second-triangle
+branch of `diagline_dist()` is never taken for it -/
+theorem fixed_threshold_matrix_symmetric (rnd : Rat → Rat) (emb : List (List X)) (eps : X)
+    (dim : Nat) (mv : Bool) (n : Nat) :
+    symmetricB (fixedThresholdX rnd emb eps dim mv) n = true :=
+  fixedThresholdX_symmetricB rnd emb eps dim mv n
+
+/-- **`diagline_dist()`: the memory-saving mode returns what the matrix mode returns**, with and
+without `missing_values` (doubling included) -/
+theorem diagline_method_sparse_eq_matrix (rnd : Rat → Rat) (h0 : rnd 0 = 0) (emb : List (List X))
+    (eps : X) (dim : Nat) (mv : Bool) :
+    diaglineMethod rnd ⟨emb, eps, dim, mv, true⟩ = diaglineMethod rnd ⟨emb, eps, dim, mv, false⟩ := by
+  cases mv <;>
+    simp [diaglineMethod, diagKernelOn, RP.R, RP.M, zeroHist, fixedThresholdX_symmetricB,
+      seqX_diagline_eq_matrix rnd h0, seqX_diagline_mv_eq_matrix rnd h0]
+
+/-- **`vertline_dist()`: the same in both storage modes** -/
+theorem vertline_method_sparse_eq_matrix (rnd : Rat → Rat) (h0 : rnd 0 = 0) (emb : List (List X))
+    (eps : X) (dim : Nat) (mv : Bool) :
+    vertlineMethod rnd ⟨emb, eps, dim, mv, true⟩ = vertlineMethod rnd ⟨emb, eps, dim, mv, false⟩ := by
+  cases mv <;>
+    simp [vertlineMethod, RP.R, RP.M, zeroHist, seqX_vertline_eq_matrix rnd h0,
+      seqX_vertline_mv_eq_matrix rnd h0]
+
+/-- **`diagline_dist()` is twice the run-length count of the sub-diagonals of the stored matrix**
+(= the count over all diagonals off the main one, the matrix being symmetric), in both modes -/
+theorem diagline_method_eq_runs (rnd : Rat → Rat) (h0 : rnd 0 = 0) (emb : List (List X)) (eps : X)
+    (dim : Nat) (sparse : Bool) :
+    diaglineMethod rnd ⟨emb, eps, dim, false, sparse⟩
+      = (histOfRuns (diagsOf (fixedThresholdX rnd emb eps dim false) emb.length) emb.length).map
+          (2 * ·) := by
+  cases sparse
+  · simp [diaglineMethod, diagKernelOn, RP.R, zeroHist, fixedThresholdX_symmetricB,
+      gen_diagline_runs]
+  · rw [diagline_method_sparse_eq_matrix rnd h0]
+    simp [diaglineMethod, diagKernelOn, RP.R, zeroHist, fixedThresholdX_symmetricB,
+      gen_diagline_runs]
+
+/-- … with `missing_values`: twice the count of the specification `runsMV` (lines containing,
+directly following or directly followed by a cell of an incomplete state vector are dropped) -/
+theorem diagline_method_mv_eq_runs (rnd : Rat → Rat) (h0 : rnd 0 = 0) (emb : List (List X))
+    (eps : X) (dim : Nat) (sparse : Bool) :
+    diaglineMethod rnd ⟨emb, eps, dim, true, sparse⟩
+      = ((((diagCoords emb.length).map
+            (cellsOf (fixedThresholdX rnd emb eps dim true) (missingMaskX emb) true)).flatMap
+            runsMV).foldl bump (List.replicate emb.length 0)).map (2 * ·) := by
+  cases sparse
+  · simp [diaglineMethod, diagKernelOn, RP.R, RP.M, zeroHist, fixedThresholdX_symmetricB,
+      gen_diagline_mv_eq, diag_mv_eq_runs]
+  · rw [diagline_method_sparse_eq_matrix rnd h0]
+    simp [diaglineMethod, diagKernelOn, RP.R, RP.M, zeroHist, fixedThresholdX_symmetricB,
+      gen_diagline_mv_eq, diag_mv_eq_runs]
+
+/-- **`vertline_dist()` is the run-length count of the rows of the stored matrix**, both modes -/
+theorem vertline_method_eq_runs (rnd : Rat → Rat) (h0 : rnd 0 = 0) (emb : List (List X)) (eps : X)
+    (dim : Nat) (sparse : Bool) :
+    vertlineMethod rnd ⟨emb, eps, dim, false, sparse⟩
+      = histOfRuns (rowsOf (fixedThresholdX rnd emb eps dim false) true emb.length) emb.length := by
+  cases sparse
+  · simp [vertlineMethod, RP.R, zeroHist, gen_vertline_runs]
+  · rw [vertline_method_sparse_eq_matrix rnd h0]
+    simp [vertlineMethod, RP.R, zeroHist, gen_vertline_runs]
+
+theorem vertline_method_mv_eq_runs (rnd : Rat → Rat) (h0 : rnd 0 = 0) (emb : List (List X))
+    (eps : X) (dim : Nat) (sparse : Bool) :
+    vertlineMethod rnd ⟨emb, eps, dim, true, sparse⟩
+      = (((vertCoords emb.length).map
+            (cellsOf (fixedThresholdX rnd emb eps dim true) (missingMaskX emb) true)).flatMap
+            runsMV).foldl bump (List.replicate emb.length 0) := by
+  cases sparse
+  · simp [vertlineMethod, RP.R, RP.M, zeroHist, gen_vertline_mv_eq, vert_mv_eq_runs]
+  · rw [vertline_method_sparse_eq_matrix rnd h0]
+    simp [vertlineMethod, RP.R, RP.M, zeroHist, gen_vertline_mv_eq, vert_mv_eq_runs]
+
+/-- `white_vertline_dist()`: run-length count of the non-recurrence points of the rows in matrix
+mode; `NotImplementedError` in sequential mode -/
+theorem white_method_eq_runs (rnd : Rat → Rat) (emb : List (List X)) (eps : X) (dim : Nat)
+    (mv : Bool) :
+    whiteVertlineMethod rnd ⟨emb, eps, dim, mv, false⟩
+        = some (histOfRuns (rowsOf (fixedThresholdX rnd emb eps dim mv) false emb.length)
+            emb.length) ∧
+      whiteVertlineMethod rnd ⟨emb, eps, dim, mv, true⟩ = none := by
+  simp [whiteVertlineMethod, RP.R, zeroHist, gen_white_runs]
+
+theorem countIn_rowsOf (R : Mat) (n : Nat) : countIn (rowsOf R true n) = matSum R n := by
+  simp [countIn, rowsOf, matSum, List.map_map, Function.comp_def]
+
+/-- **`recurrence_rate()` counts the recurrence points of the stored matrix in every mode**: its
+numerator is `R.sum()` of the matrix mode also in sequential mode, where it is `Σ l·P_v(l)` — and
+with `missing_values`, where the repaired code (f8b6262) runs the plain sequential kernel on the
+state vectors without NaN, it is still the sum of the matrix whose incomplete rows and columns
+are cleared -/
+theorem recurrence_rate_num_all_modes (rnd : Rat → Rat) (h0 : rnd 0 = 0) (emb : List (List X))
+    (eps : X) (dim : Nat) (mv sparse : Bool) :
+    recurrenceRateNum rnd ⟨emb, eps, dim, mv, sparse⟩
+      = matSum (fixedThresholdX rnd emb eps dim mv) emb.length := by
+  cases sparse
+  · simp [recurrenceRateNum, RP.R]
+  · cases mv
+    · simp only [recurrenceRateNum, vertlineMethod, Bool.not_true, Bool.false_eq_true, if_false,
+        zeroHist]
+      rw [seqX_vertline_eq_matrix rnd h0, gen_vertline_eq, vert_accounts_black, countIn_rowsOf]
+    · simp only [recurrenceRateNum, Bool.not_true, Bool.false_eq_true, if_false, if_true, zeroHist]
+      rw [seqX_vertline_eq_matrix rnd h0, gen_vertline_eq, vert_accounts_black, countIn_rowsOf,
+        ← matSum_mv_eq_complete rnd h0]
+
+/-- non-vacuity: a 5-sample series with a NaN and an infinite sample; the modes -/
+example :
+    diaglineMethod id ⟨[[.fin 0], [.nan], [.fin (1/2)], [.fin 1], [.pinf]], .fin 1, 1, false, true⟩
+      = [2, 2, 2, 0, 0] ∧
+    vertlineMethod id ⟨[[.fin 0], [.nan], [.fin (1/2)], [.fin 1], [.pinf]], .fin 1, 1, true, true⟩
+      = [1, 0, 0, 0, 0] ∧
+    recurrenceRateNum id ⟨[[.fin 0], [.nan], [.fin (1/2)], [.fin 1], [.pinf]], .fin 1, 1, true, true⟩
+      = 8 ∧
+    recurrenceRateNum id ⟨[[.fin 0], [.nan], [.fin (1/2)], [.fin 1], [.pinf]], .fin 1, 1, true, false⟩
+      = 8 := by decide +kernel
+
+end Methods
 
 /-! ## Round 4 — `RecurrencePlot.diagline_dist()` as a whole (Python layer included) -/
 section PyLayer
